@@ -63,7 +63,7 @@ def observable(t):
 
 
 def run(ctx):
-    ctx.level = "proof"
+    ctx.level = "translation_validation"
     coq.build(["C07/Judge.vo"])      # first, so that the Props.v output is not interleaved by make -j
     ok, out = coq.check_props(ctx, "C07")
     if not ok:
